@@ -162,13 +162,14 @@ PROPS["C04"]["tables"] = ["unit-multipliers"]      # a compiled value that diffe
 
 # theorem modules about Lean text GENERATED from C functions: obligations whenever the translator accepts the current source
 PROPS["C10"]["generated"] = [{"module": "ScpiVerif.Props.C10Gen", "section": "fifo_c"}]
+PROPS["C14"]["generated"] = [{"module": "ScpiVerif.Props.C14Gen", "section": "intfmt_c"}]
 
 NOT_CLAIMED = {}
 
 _T = {
-    "C14": ("Theorems toStr32_spec / toStr64_spec: for every value < 2^w, every base argument, signedness and buffer length the model of UInt{32,64}ToStrBaseSign stores exactly the leading `len` characters of the canonical text, returns their number, writes the NUL iff a byte remains, and no step divides by zero, wraps or indexes outside the digit table; canon_value: the canonical text has no leading zero, only digits of the base and denotes the value. Stated over the divisor constants regenerated from utils.c. The model is tied to the C code by differential testing, which is what limits the assurance.",
-            "Lean kernel + axioms propext/Classical.choice/Quot.sound; translator for the switch(base) constants and digit alphabet; model-to-code correspondence is testing (boundary and stratified values x bases x buffer lengths 0..70 under ASan)",
-            "Lean 4 theorem (induction on the digit loop) over generated constants + differential correspondence"),
+    "C14": ("Theorems toStr32_spec / toStr64_spec: for every value < 2^w, every base argument, signedness and buffer length the model of UInt{32,64}ToStrBaseSign stores exactly the leading `len` characters of the canonical text, returns their number, writes the NUL iff a byte remains, and no step divides by zero, wraps or indexes outside the digit table; canon_value: the canonical text has no leading zero, only digits of the base and denotes the value. Stated over the divisor constants regenerated from utils.c. The model is tied to the C code by differential testing AND, on every run, by translation: UInt32ToStrBaseSign, UInt64ToStrBaseSign and the four public wrappers (SCPI_Int32ToStr, SCPI_UInt32ToStrBase, SCPI_Int64ToStr, SCPI_UInt64ToStrBase) are TRANSLATED from the C text (translate/c2lean_intfmt.py, clang AST -> Gen/IntFmtC.lean: unsigned arithmetic modulo 2^N, loops with visible fuel, switch, the buffer as its store log, an ub flag for division by zero / digit index / fuel) and proved equal to the hand model for every value, base argument, signedness and buffer length below 2^64 (c_toStr32_refines / c_toStr64_refines), so c_toStr32_spec / c_toStr64_spec / c_*ToStr* state C14 of the C text as it is now: exactly the leading len characters of the canonical text at indices 0.., the NUL iff a byte remains, nothing at or beyond len, nothing undefined.",
+            "Lean kernel + axioms propext/Classical.choice/Quot.sound; translator for the switch(base) constants and digit alphabet; clang-14 typed AST + translate/c2lean_intfmt.py (Nat/Int model of the C integer types on LP64, store log for the buffer) + refinement proofs; the compiled code is tied by testing (boundary and stratified values x bases x buffer lengths 0..70 under ASan)",
+            "Lean 4 theorem (induction on the digit loop) over generated constants + C-to-Lean translation of the formatters with machine-checked equivalence to the model + differential correspondence"),
     "C10": ("Theorems queue_refines / queue_owns_texts: for every capacity >= 1 and every history of pushes (any code, text, declared length, allocation failure), pops, SYST:ERR?, clears and counts, the model of fifo.c + error.c produces exactly the observations of an abstract bounded FIFO with -350 overflow marker, every live allocation is referenced by exactly one entry, nothing is freed twice, and an empty queue holds no allocation. Ring invariant and abstraction lemmas per fifo operation. Real malloc/free is observed by ASan and a link-time allocation counter, not proved. The ring-buffer functions of fifo.c are additionally TRANSLATED from the C text on every run (translate/c2lean.py, clang AST -> Gen/FifoC.lean) and proved to refine the hand model on every well-formed state (c_fifo_* theorems; well-formedness holds after fifo_init and is kept by every function), so the queue theorems hold of the C text as it is now, not only of the hand model.",
             "Lean kernel + standard axioms; fifo.c: clang-14 typed AST + translate/c2lean.py (Int model of int16 arithmetic with wrap on store, C99 remainder) + refinement proofs; error.c: hand-written model tied by exhaustive short histories (capacities 1..4), random long ones and capacities 100..1000 in configurations A and C with injected strndup failures",
             "Lean 4 refinement proof (ring buffer -> list) with ghost allocator; C-to-Lean translation of fifo.c with machine-checked equivalence to the model; differential correspondence"),
